@@ -111,6 +111,8 @@ def prop_file(ctx, case):
         cls.append('empty-chunk')
     if spec['filler1_tag']:
         cls.append('threadmap-tag-in-stackshot')
+    if spec.get('decoy'):
+        cls.append('decoy-sections-in-stackshot')
     for name, marker in (('filler1', kmodel.STACKSHOT_END), ('filler2', kmodel.TAG_THREADMAP)):
         f = spec[name]
         if f and any(f.endswith(marker[:k]) for k in range(1, len(marker))):
